@@ -75,7 +75,20 @@ CONFIGS = [
     ("one/pool2/m0>0", [("p0", "primary")], [("m0", 0)], 2),
     ("one/cache/m0>0", [("p0", "primary")], [("m0", 0)], 1, {"prepared_statements_cache_size": 50}),
     ("two/cache/m0>1,m1>0", [("p0", "primary"), ("r1", "replica")], [("m0", 1), ("m1", 0)], 1, {"prepared_statements_cache_size": 50}),
+    # plugins at global / pool level in the mirrored pool: the prewarmer runs ONCE per connection of the real server (and is
+    # copied to the mirrors like any other request); a mirror's own connection must not add statements of its own
+    ("one/plug-g2/m0>0", [("p0", "primary")], [("m0", 0)], 1, {"_plugins_global": (2, True)}),
+    ("one/plug-p1/m0>0,m1>0", [("p0", "primary")], [("m0", 0), ("m1", 0)], 1, {"_plugins_pool": (1, True), "query_parser_enabled": True}),
+    ("two/plug-p2/m0>1,m1>0", [("p0", "primary"), ("r1", "replica")], [("m0", 1), ("m1", 0)], 1, {"_plugins_pool": (2, False), "query_parser_enabled": True}),
+    ("one/pool2/plug-g1/m0>0", [("p0", "primary")], [("m0", 0)], 2, {"_plugins_global": (1, False), "_plugins_pool": None}),
 ]
+
+
+def plugins_toml(nq, logger):
+    t = "[plugins]\n\n[plugins.prewarmer]\nenabled = true\nqueries = [%s]\n" % ", ".join('"SELECT %d /*prewarm_%d*/"' % (70 + i, i) for i in range(nq))
+    if logger:
+        t += "\n[plugins.query_logger]\nenabled = true\n"
+    return t
 # C20-M4 (fixed in /repo by 0edee1c, kept as a regression): a mirror whose mirroring_target_index is not the position of
 # a server of its shard used to be accepted and silently never used; Shard::validate must REJECT such a configuration.
 REJECTED_CONFIGS = [
@@ -96,11 +109,17 @@ def failed(res):
 
 def make_toml(cfg, with_mirrors):
     name, servers, mirrors, pool_size = cfg[:4]
+    extra = dict(cfg[4]) if len(cfg) > 4 else {}
+    pg, pp = extra.pop("_plugins_global", None), extra.pop("_plugins_pool", None)
     shard = {"servers": [[b, r] for b, r in servers]}
     if with_mirrors and mirrors:
         shard["mirrors"] = [[b, i] for b, i in mirrors]
+    # pool-level connect_timeout: it is the one the mirror's own 1-connection pool uses (mirrors.rs create_pool; default 10 s)
+    pool = {"opts": dict({"default_role": "primary", "primary_reads_enabled": True, "connect_timeout": 400}, **extra), "users": [{"pool_size": pool_size}], "shards": [shard]}
+    if pp:
+        pool["plugins"] = plugins_toml(*pp)
     return W.make_toml(general={"connect_timeout": 400, "healthcheck_timeout": 400, "healthcheck_delay": 600000},
-                       pools={"db": {"opts": dict({"default_role": "primary", "primary_reads_enabled": True}, **(cfg[4] if len(cfg) > 4 else {})), "users": [{"pool_size": pool_size}], "shards": [shard]}})
+                       pools={"db": pool}, plugins=plugins_toml(*pg) if pg else None)
 
 
 def coq_cfg(cfg):
@@ -438,6 +457,10 @@ def check_pair(cfg, program, sched, res_m, res_b):
                 elif not anyframe:
                     known = {raw for pc in porder for _, raw in pd[pc]}
                     odd = [raw for _, raw in fr if raw not in known]
+                    small = [raw for pc in porder for _, raw in pd[pc] if len(raw) < 400]
+                    if odd and any(k in o[10:] for o in odd for k in small):
+                        bad.append(("mirror-truncated", "mirror %s conn %d: a frame the mirror parsed (declared length %d) contains whole later requests of %s: an earlier frame was cut short and its length field runs over what followed" % (
+                            mb, mc, int(odd[0][2:10], 16), tb_name)))
                     bad.append(("mirror-subseq", "mirror %s conn %d: %d frames are not an in-order subsequence of what any connection of %s received (%s)" % (
                         mb, mc, len(fr), tb_name, ("first frame the server never got: %r" % bytes.fromhex(odd[0])[:90]) if odd else "order differs")))
                 else:
@@ -631,6 +654,80 @@ def outage_program(rng, capacity, with_txn):
     return prog
 
 
+def bigstmt_case(i, size, count):
+    """statements of `size` bytes to a mirror that stops reading (the mirror task ends up blocked inside ONE write, for
+    longer than a second), then reads again; afterwards small requests follow on the same mirror connection"""
+    cfg = CFG["one/m0>0"]
+    program = [req("c1", [Q("SELECT 0 /*bs%d_first*/" % i)])]
+    for k in range(count):
+        program.append(req("c1", [Q("SELECT %d /*%s*/ /*bs%d_%d*/" % (k, "y" * size, i, k))], kind="bigstmt"))
+    for k in range(3):
+        program.append(req("c1", [Q("SELECT %d /*bs%d_mid_%d*/" % (k, i, k))]))
+    n = len(program)
+    for k in range(5):
+        program.append(req("c1", [Q("SELECT %d /*bs%d_after_%d*/" % (k, i, k))]))
+    sched = [(1, "_sleep", 80, 0), (1, "m0", "noread", 0), (n, "_sleep", 1500, 0), (n, "m0", "normal", 0)]
+    return {"kind": "bigstmt", "cfg": cfg, "program": program, "sched": sched, "size": size, "count": count}
+
+
+LAT_KINDS = ["down_held", "refuse", "hang_startup", "hang", "noread"]
+LAT_N = 20
+
+
+def latency_scenario(kind, workers):
+    """ONE process: first LAT_N small round trips through a pool WITHOUT mirrors (no mirror task exists yet), then the
+    mirrored pool is brought up (2 server connections x 2 mirrors = 4 mirror tasks), the fault is held for longer than
+    connect_timeout, and the same LAT_N round trips go through the mirrored pool while it lasts."""
+    plain = {"opts": {"default_role": "primary", "connect_timeout": 400}, "users": [{"pool_size": 2}], "shards": [{"servers": [["p0", "primary"]]}]}
+    mirrored = {"opts": {"default_role": "primary", "connect_timeout": 400}, "users": [{"pool_size": 2}], "shards": [{"servers": [["p0", "primary"]], "mirrors": [["m0", 0], ["m1", 0]]}]}
+    toml = W.make_toml(general={"connect_timeout": 400, "healthcheck_timeout": 400, "healthcheck_delay": 600000}, pools={"plain": plain, "db": mirrored})
+    steps = [{"op": "connect", "c": "b1", "params": {"user": "u", "database": "plain"}, "password": "pw"},
+             {"op": "send", "c": "b1", "msgs": [Q("SELECT 0 /*warm*/")]}, {"op": "recv", "c": "b1", "until": "Z", "timeout_ms": 2000, "label": "warm"}]
+    for i in range(LAT_N):
+        steps += [{"op": "send", "c": "b1", "msgs": [Q("SELECT %d /*lat_b%d*/" % (i, i))]}, {"op": "recv", "c": "b1", "until": "Z", "timeout_ms": 2000, "label": "b%d" % i},
+                  {"op": "sleep", "ms": 20}]
+    early = kind in ("down_held", "refuse", "hang_startup")
+    fault = [{"op": "backend", "b": "m0", "mode": kind}, {"op": "backend", "b": "m1", "mode": kind}]
+    if early:
+        steps += fault + [{"op": "sleep", "ms": 30}]
+    steps += [{"op": "connect", "c": "c2", "params": {"user": "u", "database": "db"}, "password": "pw"},
+              {"op": "connect", "c": "c1", "params": {"user": "u", "database": "db"}, "password": "pw"},
+              {"op": "send", "c": "c2", "msgs": [Q("BEGIN /*lat_hold*/")]}, {"op": "recv", "c": "c2", "until": "Z", "timeout_ms": 4000, "label": "hold"},
+              {"op": "send", "c": "c1", "msgs": [Q("SELECT 0 /*lat_first*/")]}, {"op": "recv", "c": "c1", "until": "Z", "timeout_ms": 4000, "label": "first"}]
+    if not early:
+        steps += [{"op": "sleep", "ms": 100}] + fault
+    steps += [{"op": "sleep", "ms": 700}]
+    for i in range(LAT_N):
+        steps += [{"op": "send", "c": "c1", "msgs": [Q("SELECT %d /*lat_f%d*/" % (i, i))]}, {"op": "recv", "c": "c1", "until": "Z", "timeout_ms": 2000, "label": "f%d" % i},
+                  {"op": "sleep", "ms": 20}]
+    steps += [{"op": "send", "c": "c2", "msgs": [Q("COMMIT /*lat_release*/")]}, {"op": "recv", "c": "c2", "until": "Z", "timeout_ms": 4000, "label": "release"}]
+    return {"backends": [{"name": b} for b in ALL_BACKENDS], "toml": toml, "timing": True, "workers": workers, "steps": steps}
+
+
+def median(xs):
+    xs = sorted(xs)
+    return xs[len(xs) // 2] if len(xs) % 2 else (xs[len(xs) // 2 - 1] + xs[len(xs) // 2]) / 2.0
+
+
+def latency_eval(res):
+    """-> dict(base_median, fault_median, ...) in ms; a round trip that did not complete counts with its timeout"""
+    if failed(res):
+        return None
+    lat = {}
+    outcome = {e.get("label"): e.get("outcome") for e in res["events"] if e.get("ev") == "recv"}
+    for w, l, ms in request_latencies(res):
+        lat[l] = ms if outcome.get(l) == "ok" else max(ms, 2000.0)
+    b = [lat.get("b%d" % i, 2000.0) for i in range(LAT_N)]
+    f = [lat.get("f%d" % i, 2000.0) for i in range(LAT_N)]
+    return {"base_median_ms": round(median(b), 3), "fault_median_ms": round(median(f), 3), "base_max_ms": round(max(b), 2), "fault_max_ms": round(max(f), 2),
+            "fault_over_150ms": sum(1 for x in f if x > 150), "base_over_150ms": sum(1 for x in b if x > 150),
+            "fault_incomplete": sum(1 for i in range(LAT_N) if outcome.get("f%d" % i) != "ok")}
+
+
+def latency_verdict(m):
+    return m is not None and m["fault_median_ms"] > 10 * m["base_median_ms"] and m["fault_median_ms"] > 150
+
+
 # --------------------------------------------------------------------------- the check
 def check(run):
     quick = run.tier == "quick"
@@ -655,7 +752,9 @@ def check(run):
     if not ok:
         run.violation("tie-broken", "wire harness does not build against /repo", {"correspondence": "wire harness build", "log": blog[-3000:]}, found_input=False)
         return
-    wire = bins["wire"]
+    # self-test hook: C20_WIRE=<path> runs the scenarios against another build of the wire harness (a scratch copy
+    # of the sources with a seeded change); never set in normal operation
+    wire = os.environ.get("C20_WIRE") or bins["wire"]
     capacity = gen_capacity() if tr_ok else 10
     run.cov["channel_capacity_from_source"] = capacity
 
@@ -715,10 +814,17 @@ def check(run):
         sched = [(1, "_sleep", 80, 0), (1, "m0", "noread", 0), (len(program), "m0", "normal", 0)]
         cases.append({"kind": "backpressure", "cfg": cfg, "program": program, "sched": sched})
 
+    # (3) large statements into a mirror that stops reading for 1.5 s and then reads again
+    big = [(65536, 80), (1048576, 6)] if quick else [(65536, 80), (65536, 120), (262144, 24), (1048576, 6), (1048576, 10), (4194304, 3), (4194304, 4)]
+    for i, (size, count) in enumerate(big):
+        cases.append(bigstmt_case(i, size, count))
+
     scns = []
     for cs in cases:
         extra = None
         tail = 150
+        if cs["kind"] == "bigstmt":
+            tail = 1500
         if cs["kind"] == "outage":
             tail = 900
         if cs["kind"] == "backpressure":
@@ -727,8 +833,8 @@ def check(run):
         cs["scn_b"] = build_scenario(cs["cfg"], cs["program"], cs["sched"], False, tail_ms=20, app=cs.get("app"))
         scns += [cs["scn_m"], cs["scn_b"]]
     run.log("running %d scenario pairs" % len(cases))
-    heavy = [i for i, cs in enumerate(cases) if cs["kind"] == "backpressure"]
-    light = [i for i, cs in enumerate(cases) if cs["kind"] != "backpressure"]
+    heavy = [i for i, cs in enumerate(cases) if cs["kind"] in ("backpressure", "bigstmt")]
+    light = [i for i, cs in enumerate(cases) if cs["kind"] not in ("backpressure", "bigstmt")]
     results = [None] * len(scns)
     idx = [j for i in light for j in (2 * i, 2 * i + 1)]
     for j, r in zip(idx, W.run_scenarios(wire, [scns[j] for j in idx], timeout=120)):
@@ -742,7 +848,7 @@ def check(run):
 
     distinct = set()
     unconfirmed = []
-    stats = {"fault": 0, "healthy": 0, "outage": 0, "backpressure": 0, "backpressure_mirror_vs_primary_frames": [], "slow_in_both_runs": [], "mirror_frames": 0, "primary_frames": 0, "mirror_conns": 0, "overflow_runs": 0, "requests": 0,
+    stats = {"fault": 0, "healthy": 0, "outage": 0, "backpressure": 0, "bigstmt": 0, "bigstmt_mirror_vs_primary_frames": [], "backpressure_mirror_vs_primary_frames": [], "slow_in_both_runs": [], "mirror_frames": 0, "primary_frames": 0, "mirror_conns": 0, "overflow_runs": 0, "requests": 0,
              "by_fault": {}, "by_cfg": {}, "req_kinds": {}, "max_latency_ms_with_mirrors": 0.0, "drops_observed": 0}
     samples = []
     for cs in cases:
@@ -794,6 +900,8 @@ def check(run):
             stats["primary_frames"] += mc[b]["frames"]
         if cs["kind"] == "backpressure":
             stats["backpressure_mirror_vs_primary_frames"].append([mc["m0"]["frames"], mc["p0"]["frames"]])
+        if cs["kind"] == "bigstmt":
+            stats["bigstmt_mirror_vs_primary_frames"].append({"statement_bytes": cs["size"], "statements": cs["count"], "mirror_frames": mc["m0"]["frames"], "server_frames": mc["p0"]["frames"]})
         lat_b = {(w, l): ms for w, l, ms in request_latencies(cs["res_b"])}
         for w, l, ms in request_latencies(cs["res_m"]):
             stats["max_latency_ms_with_mirrors"] = max(stats["max_latency_ms_with_mirrors"], ms)
@@ -802,7 +910,7 @@ def check(run):
                 stats["slow_in_both_runs"].append({"config": cs["cfg"][0], "client": w, "request": l, "kind": kind, "ms_with_mirrors": round(ms), "ms_without": round(lat_b.get((w, l), -1))})
         run.cov["traces_validated_against_impl"] += 1
         for kind, text in bad[:1]:
-            run.violation("counterexample" if kind in ("transcript", "server-bytes", "latency", "mirror-foreign", "mirror-subseq", "mirror-partial", "mirror") else "tie-broken",
+            run.violation("counterexample" if kind in ("transcript", "server-bytes", "latency", "mirror-foreign", "mirror-subseq", "mirror-partial", "mirror-truncated", "mirror") else "tie-broken",
                           "C20 %s: %s [config %s, %s]" % (kind, text, cs["cfg"][0], cs["kind"]),
                           {"input": {"config": cs["cfg"], "program": cs["program"], "schedule": cs["sched"], "kind": cs["kind"]},
                            "monitor": [list(b) for b in bad], "scenario_with_mirrors": cs["scn_m"], "scenario_without": cs["scn_b"]})
@@ -876,6 +984,37 @@ def check(run):
                                   {"correspondence": "mirrors_of vs connections opened", "input": {"config": cs["cfg"], "program": cs["program"]}, "scenario_with_mirrors": cs["scn_m"]}, found_input=False)
         if metas:
             samples.append({"kind": "model", "expr": exprs[0][:600], "value": vals[0][:300]})
+
+    # ---- (2) round-trip latency on the client path while the mirrors are unreachable / hung / not reading.  A MONITOR on the
+    # real code (the theorem is c20_client_path_independent; what it assumes -- a mirror task that waits does not hold a
+    # runtime worker -- is what is observed here): same script without mirrors first, in the same process; 1 and 2 workers.
+    lat_cases = [(k, w) for k in LAT_KINDS for w in (1, 2)]
+    lat_scn = {kw: latency_scenario(*kw) for kw in lat_cases}
+    lat_res = dict(zip(lat_cases, W.run_scenarios(wire, [lat_scn[kw] for kw in lat_cases], workers=10, timeout=200)))
+    lat_ev = {}
+    for kw in lat_cases:
+        run.cov["evaluations"] += 1
+        distinct.add("latency:%s:%d" % kw)
+        res = lat_res[kw]
+        if failed(res) and res.get("harness_error") != "timeout":
+            run.broken.append("wire harness failed (latency %s workers=%d): %s" % (kw[0], kw[1], str(res.get("harness_error") or res.get("start_error"))[:200]))
+            continue
+        m = latency_eval(res)
+        hung = failed(res)          # the whole scenario did not finish in 200 s
+        if hung or latency_verdict(m):
+            # confirm alone
+            r2 = W.run_scenario(wire, lat_scn[kw], timeout=200)
+            m2 = latency_eval(r2)
+            if (failed(r2) and r2.get("harness_error") == "timeout") or latency_verdict(m2):
+                run.violation("counterexample", "C20 latency: with the mirrors in fault '%s' and %d runtime worker(s) the median client round trip on the mirrored pool is %s ms, "
+                              "without mirrors in the same process %s ms (20 small queries each; bound: 10x and 150 ms)" % (
+                                  kw[0], kw[1], (m2 or {}).get("fault_median_ms", "> 2000 (scenario did not finish)"), (m2 or {}).get("base_median_ms", "?")),
+                              {"input": {"fault": kw[0], "workers": kw[1]}, "measured_first": m, "measured_again": m2, "scenario_with_mirrors": lat_scn[kw]})
+            else:
+                unconfirmed.append({"kind": "latency", "fault": kw[0], "workers": kw[1], "first": m, "again": m2})
+            m = m2 or m
+        lat_ev["%s/workers=%d" % kw] = m
+    run.cov["client_round_trip_latency"] = lat_ev
 
     # ---- C20-M4 regression (fixed by 0edee1c): a mirror that names no server of its shard must be REJECTED; and the
     # model's valid_cfg must agree with config::parse on every mapping used here
